@@ -49,6 +49,26 @@ class Exchange:
     status: int | None = None
     response: bytes = b''  # raw HTTP response bytes
     outcome: str = 'ok'    # ok | dropped | refused | timeout | http_error
+    headers: dict = field(default_factory=dict)
+
+    def decoded_body(self) -> bytes:
+        """request body after de-chunking and decompression (what the peer's handler sees)"""
+        from sdc11073.httpserver.compression import CompressionHandler
+        h = {k.lower(): v for k, v in self.headers.items()}
+        data = self.body
+        if 'chunked' in h.get('transfer-encoding', ''):
+            out, rest = b'', data
+            while rest:
+                line, _, rest = rest.partition(b'\r\n')
+                n = int(line.split(b';')[0], 16)
+                if n == 0:
+                    break
+                out, rest = out + rest[:n], rest[n + 2:]
+            data = out
+        enc = h.get('content-encoding')
+        if enc:
+            data = CompressionHandler.decompress_payload(enc, data)
+        return data
 
 
 class ConnectionRefused(OSError):
@@ -193,7 +213,7 @@ class FakeConnection:
             body = body.encode('utf-8')
         raw = ('\r\n'.join(lines) + '\r\n\r\n').encode('iso-8859-1') + body
         with self.net.lock:
-            ex = Exchange(len(self.net.log), self.client_name, self.netloc, method, url, raw, body)
+            ex = Exchange(len(self.net.log), self.client_name, self.netloc, method, url, raw, body, headers=headers)
             self.net.log.append(ex)
         verdict = self.net.hook(ex) if self.net.hook else None
         server = self.net.servers.get(self.netloc)
